@@ -782,10 +782,10 @@ def run_case(mon, kind, idx, rng):
             continue
         fired.add(key)
         witness = (
+            f"call: {label}\n"
             f"H = xgi.Hypergraph(); [H.add_node(v) for v in range({n})]; "
             f"[H.add_edge(e, **a) for e, a in zip({edges}, {attrs})]\n"
             f"H2 = xgi.Hypergraph(); events (add_node(x) if absent / add_edge(members, idx=id, **attrs)) = {events(t_rep, attrs)}\n"
-            f"call: {label}\n"
             f"node map base->H2: {t_rep.nu}\nedge-ID map base->H2: {t_rep.eps}\n"
             f"on H : {_show(a)}\non H2 (mapped back): {_show(b_rep)}"
         )
